@@ -89,6 +89,8 @@ pub struct G<'a, 'b> {
     /// names of locally declared types (tsx)
     types: Vec<String>,
     in_async: bool,
+    /// is the element whose attributes are being generated a component host?
+    cur_comp: bool,
     in_generator: bool,
     /// the local name `defineComponent` is bound to something that is not vue's defineComponent
     alias_dc: bool,
@@ -129,6 +131,7 @@ impl<'a, 'b> G<'a, 'b> {
             fresh: 0,
             types: vec![],
             in_async: false,
+            cur_comp: false,
             in_generator: false,
             alias_dc: false,
         }
@@ -594,6 +597,7 @@ impl<'a, 'b> G<'a, 'b> {
 
     fn element(&mut self, depth: usize) -> String {
         let (tag, comp) = self.tag();
+        self.cur_comp = comp;
         // any tag text one of the pattern pools could match (conservative for C14)
         // (member-expression tags are never custom elements: no pattern governs them)
         if !tag.contains('.')
@@ -719,7 +723,11 @@ impl<'a, 'b> G<'a, 'b> {
 
     fn directive(&mut self, depth: usize) -> (String, Option<String>) {
         self.f.directive = true;
-        let base = self.c.choose(DIR_NAMES).to_string();
+        let mut base = self.c.choose(DIR_NAMES).to_string();
+        if (base == "v-slots" || base == "vSlots") && !self.cur_comp && !self.c.chance(1, 6) {
+            // (reported on hosts whose children are not slots: keep most modules diagnostic-free)
+            base = "v-foo".to_string();
+        }
         let mut name = base.clone();
         if self.c.chance(1, 4) {
             name.push_str(self.c.choose(DIR_ARGS));
@@ -734,7 +742,11 @@ impl<'a, 'b> G<'a, 'b> {
             self.f.vmodel = true;
         }
         let unusual = self.k.unusual;
-        let target = if unusual && self.c.chance(1, 12) {
+        let target = if self.in_async && depth == 1 && self.c.chance(1, 3) {
+            // the target is copied into the listener, a function of its own
+            self.f.unusual("vmodel-target-with-await");
+            self.c.choose(&["(await g(1)).x", "o[await f()]"])
+        } else if unusual && self.c.chance(1, 12) {
             // readable but not assignable in a module: must be reported, not assigned to
             // (`arguments` itself is illegal in class fields, where a site may be placed)
             self.f.unusual("vmodel-target-eval");
@@ -846,7 +858,14 @@ impl<'a, 'b> G<'a, 'b> {
                         // sit inside a nested arrow, where they would be illegal in the input)
                         _ if self.in_async && depth == 2 && self.c.chance(1, 2) => {
                             self.f.unusual("await-or-yield-child");
-                            if self.c.bool() { "await f()".to_string() } else { "f(await g(1))".to_string() }
+                            match self.c.pick(5) {
+                                0 | 1 => "await f()".to_string(),
+                                2 => "f(await g(1))".to_string(),
+                                // the heritage and the computed keys of a class belong to the
+                                // enclosing function
+                                3 => "class extends (await g(1)) {}".to_string(),
+                                _ => "class { [await g(1)]() {} static [await f()] = 1; }".to_string(),
+                            }
                         }
                         _ if self.in_generator && depth == 2 && self.c.chance(1, 2) => {
                             self.f.unusual("await-or-yield-child");
@@ -1065,6 +1084,15 @@ impl<'a, 'b> G<'a, 'b> {
                             " = { async k1([a] = [super.x]) {} }",
                             " = { k1() { return () => super.x; } }",
                             " = { get k1() { return { [this.n]: 1 }; } }",
+                            // `new.target` / `arguments` of the member
+                            " = { get k1() { return new.target; } }",
+                            " = { get k1() { return arguments.length; } }",
+                            " = { k1() { return new.target; } }",
+                            " = { k1: new.target }",
+                            " = { k1: () => new.target, n: arguments.length }",
+                            // the heritage of a nested class belongs to the member
+                            " = { k1() { return class extends super.B {}; } }",
+                            " = { get k1() { return class { [this.n]() {} }; } }",
                         ])
                         .to_string()
                 }
